@@ -185,4 +185,395 @@ theorem getVectorHeader_put (n : Nat) (rest : Bytes) (h : n < 2 ^ 31) :
   have : n < 2 ^ 31 := h
   simp [this]
 
+/-! ### Extensions for C20/C22 -/
+
+theorem ofInt32_lt (i : Int) : ofInt32 i < 2 ^ 32 := by
+  unfold ofInt32; omega
+
+theorem ofInt64_lt (i : Int) : ofInt64 i < 2 ^ 64 := by
+  unfold ofInt64; omega
+
+theorem toInt32_ofInt32 (i : Int) (h : -2 ^ 31 ≤ i ∧ i < 2 ^ 31) : toInt32 (ofInt32 i) = i := by
+  unfold toInt32 ofInt32; split <;> omega
+
+theorem toInt64_ofInt64 (i : Int) (h : -2 ^ 63 ≤ i ∧ i < 2 ^ 63) : toInt64 (ofInt64 i) = i := by
+  unfold toInt64 ofInt64; split <;> omega
+
+theorem toInt32_range (v : Nat) (h : v < 2 ^ 32) : -2 ^ 31 ≤ toInt32 v ∧ toInt32 v < 2 ^ 31 := by
+  unfold toInt32; split <;> omega
+
+theorem toInt64_range (v : Nat) (h : v < 2 ^ 64) : -2 ^ 63 ≤ toInt64 v ∧ toInt64 v < 2 ^ 63 := by
+  unfold toInt64; split <;> omega
+
+theorem getInt32_putInt32 (i : Int) (rest : Bytes) (h : -2 ^ 31 ≤ i ∧ i < 2 ^ 31) :
+    getInt32 (putInt32 i ++ rest) = .ok (i, rest) := by
+  unfold getInt32 putInt32
+  rw [getU32_putU32 _ _ (ofInt32_lt i)]
+  simp only [toInt32_ofInt32 i h]
+
+theorem getInt64_putInt64 (i : Int) (rest : Bytes) (h : -2 ^ 63 ≤ i ∧ i < 2 ^ 63) :
+    getInt64 (putInt64 i ++ rest) = .ok (i, rest) := by
+  unfold getInt64 putInt64
+  rw [getU64_putU64 _ _ (ofInt64_lt i)]
+  simp only [toInt64_ofInt64 i h]
+
+theorem putVectorHeader_length (n : Nat) : (putVectorHeader n).length = 8 := by
+  simp [putVectorHeader, putU32]
+
+theorem putBytes_eq (v : Bytes) :
+    putBytes v = bytesHeader v.length ++ v ++ zeros (bytesPad v.length) := by
+  unfold putBytes bytesHeader bytesPad
+  simp only
+  split <;> simp
+
+theorem fromLE_take_lt (b : Bytes) (k : Nat) : fromLE (b.take k) < 256 ^ k := by
+  have h := fromLE_lt (b.take k)
+  have hl : (b.take k).length ≤ k := by simp [List.length_take]; omega
+  exact Nat.lt_of_lt_of_le h (Nat.pow_le_pow_right (by omega) hl)
+
+/-- Every decoded 32-bit value is in range (so the signed view is a faithful `int32`). -/
+theorem getU32_lt {b r : Bytes} {v : Nat} (h : getU32 b = .ok (v, r)) : v < 2 ^ 32 := by
+  unfold getU32 at h
+  split at h
+  · cases h
+  · injection h with h; injection h with h1 h2
+    subst h1
+    simpa using fromLE_take_lt b 4
+
+theorem getU64_lt {b r : Bytes} {v : Nat} (h : getU64 b = .ok (v, r)) : v < 2 ^ 64 := by
+  unfold getU64 at h
+  split at h
+  · cases h
+  · injection h with h; injection h with h1 h2
+    subst h1
+    simpa using fromLE_take_lt b 8
+
+/-! #### Short input is an error -/
+
+theorem getU32_short (b : Bytes) (h : b.length < 4) : getU32 b = .error .eof := by
+  simp [getU32, h]
+
+theorem getU64_short (b : Bytes) (h : b.length < 8) : getU64 b = .error .eof := by
+  simp [getU64, h]
+
+theorem getN_short (n : Nat) (b : Bytes) (h : b.length < n) : getN n b = .error .eof := by
+  simp [getN, h]
+
+theorem getBool_short (b : Bytes) (h : b.length < 4) : getBool b = .error .eof := by
+  simp [getBool, h]
+
+theorem consumeID_short (id : Nat) (b : Bytes) (h : b.length < 4) : consumeID id b = .error .eof := by
+  simp [consumeID, h]
+
+theorem getInt32_short (b : Bytes) (h : b.length < 4) : getInt32 b = .error .eof := by
+  simp [getInt32, getU32_short b h]
+
+theorem getInt64_short (b : Bytes) (h : b.length < 8) : getInt64 b = .error .eof := by
+  simp [getInt64, getU64_short b h]
+
+theorem getVectorHeader_short (b : Bytes) (h : b.length < 8) :
+    getVectorHeader b = .error .eof ∨ getVectorHeader b = .error .unexpectedID := by
+  unfold getVectorHeader consumeID
+  by_cases h4 : b.length < 4
+  · simp [h4]
+  · simp only [h4, if_false]
+    by_cases hid : fromLE (List.take 4 b) = typeVector
+    · have : (b.drop 4).length < 4 := by simp; omega
+      simp [hid, getU32_short _ this]
+    · simp [hid]
+
+/-- Whatever `decodeBytes` accepts lies inside the input: value and header fit in `b`. -/
+theorem decodeBytes_ok_bounds {b v : Bytes} {n : Nat} (h : decodeBytes b = .ok (n, v)) :
+    v.length + 1 ≤ b.length ∧ n % 4 = 0 ∧ v.length < n ∧ n ≤ v.length + 7 ∧ v.length < 2 ^ 24 := by
+  unfold decodeBytes at h
+  split at h
+  · cases h
+  · rename_i b0 t
+    simp only [firstLong, maxSmall] at h
+    split at h
+    · split at h
+      · cases h
+      · split at h
+        · cases h
+        · injection h with h; injection h with h1 h2
+          subst h1 h2
+          rename_i hlen hlen2
+          have hp := padded_ge (fromLE (List.take 3 (List.drop 1 (b0 :: t))) + 4)
+          have hq := padded_lt (fromLE (List.take 3 (List.drop 1 (b0 :: t))) + 4)
+          have hm := padded_mod (fromLE (List.take 3 (List.drop 1 (b0 :: t))) + 4)
+          have h3 := fromLE_take_lt (List.drop 1 (b0 :: t)) 3
+          simp only [List.length_take, List.length_drop] at *
+          omega
+    · split at h
+      · cases h
+      · by_cases hs : b0.toNat > 253
+        · simp [hs] at h
+        · simp only [hs, if_false] at h
+          injection h with h; injection h with h1 h2
+          subst h1 h2
+          have hp := padded_ge (b0.toNat + 1)
+          have hq := padded_lt (b0.toNat + 1)
+          have hm := padded_mod (b0.toNat + 1)
+          have hb := b0.toNat_lt
+          simp only [List.length_take, List.length_drop] at *
+          omega
+
+/-! #### The panic-explicit decoders never panic -/
+
+@[simp] theorem Out.bind_ok {α β : Type} (a : α) (f : α → Out β) : (Out.ok a >>= f) = f a := rfl
+@[simp] theorem Out.bind_err {α β : Type} (e : Err) (f : α → Out β) : (Out.err e >>= f) = Out.err e := rfl
+@[simp] theorem Out.bind_panic {α β : Type} (f : α → Out β) : (Out.panic >>= f) = Out.panic := rfl
+@[simp] theorem Out.pure_eq {α : Type} (a : α) : (pure a : Out α) = Out.ok a := rfl
+
+theorem Out.ofExcept_ne_panic {α : Type} (x : Except Err α) : Out.ofExcept x ≠ Out.panic := by
+  cases x <;> simp [Out.ofExcept]
+
+theorem peekIDP_eq (b : Bytes) :
+    peekIDP b = if b.length < 4 then .err .eof else .ok (fromLE (b.take 4)) := by
+  unfold peekIDP goLE32 word
+  split
+  · rfl
+  · rename_i h; simp; omega
+
+theorem getU32P_eq (b : Bytes) : getU32P b = Out.ofExcept (getU32 b) := by
+  unfold getU32P getU32
+  rw [peekIDP_eq]
+  by_cases h : b.length < 4
+  · simp [h, Out.ofExcept]
+  · have h' : 4 ≤ b.length := by omega
+    simp [h, Out.ofExcept, goFrom, word, h']
+
+theorem getU64P_eq (b : Bytes) : getU64P b = Out.ofExcept (getU64 b) := by
+  unfold getU64P getU64 word
+  by_cases h : b.length < 8
+  · simp [h, Out.ofExcept]
+  · have h' : 8 ≤ b.length := by omega
+    simp [h, Out.ofExcept, goFrom, goLE64, h']
+
+theorem getInt32P_eq (b : Bytes) : getInt32P b = Out.ofExcept (getInt32 b) := by
+  unfold getInt32P getInt32
+  rw [getU32P_eq]
+  cases getU32 b with
+  | error e => rfl
+  | ok p => cases p; rfl
+
+theorem getInt64P_eq (b : Bytes) : getInt64P b = Out.ofExcept (getInt64 b) := by
+  unfold getInt64P getInt64
+  rw [getU64P_eq]
+  cases getU64 b with
+  | error e => rfl
+  | ok p => cases p; rfl
+
+theorem getBoolP_eq (b : Bytes) : getBoolP b = Out.ofExcept (getBool b) := by
+  unfold getBoolP getBool
+  rw [peekIDP_eq]
+  by_cases h : b.length < 4
+  · simp [h, Out.ofExcept]
+  · have h' : 4 ≤ b.length := by omega
+    simp only [h, if_false, Out.bind_ok]
+    split
+    · simp [goFrom, word, h', Out.ofExcept]
+    · split
+      · simp [goFrom, word, h', Out.ofExcept]
+      · rfl
+
+theorem consumeIDP_eq (id : Nat) (b : Bytes) : consumeIDP id b = Out.ofExcept (consumeID id b) := by
+  unfold consumeIDP consumeID
+  rw [peekIDP_eq]
+  by_cases h : b.length < 4
+  · simp [h, Out.ofExcept]
+  · have h' : 4 ≤ b.length := by omega
+    simp only [h, if_false, Out.bind_ok]
+    split
+    · simp [goFrom, word, h', Out.ofExcept]
+    · rfl
+
+theorem getVectorHeaderP_eq (b : Bytes) : getVectorHeaderP b = Out.ofExcept (getVectorHeader b) := by
+  unfold getVectorHeaderP getVectorHeader
+  rw [consumeIDP_eq]
+  cases consumeID typeVector b with
+  | error e => rfl
+  | ok p =>
+    obtain ⟨u, r⟩ := p
+    simp only [Out.ofExcept, Out.bind_ok]
+    rw [getU32P_eq]
+    cases getU32 r with
+    | error e => rfl
+    | ok q =>
+      obtain ⟨n, r'⟩ := q
+      simp only [Out.ofExcept, Out.bind_ok]
+      split <;> rfl
+
+theorem getNP_eq (n : Nat) (b : Bytes) : getNP n b = Out.ofExcept (getN n b) := by
+  unfold getNP getN
+  by_cases h : b.length < n
+  · simp [h, Out.ofExcept]
+  · have h' : n ≤ b.length := by omega
+    simp [h, Out.ofExcept, goFrom, goSlice, h']
+
+theorem goIdx_lt (b : Bytes) (i : Nat) (h : i < b.length) : goIdx b i = .ok b[i] := by
+  unfold goIdx
+  simp [List.getElem?_eq_getElem h]
+
+theorem decodeBytesP_eq (b : Bytes) : decodeBytesP b = Out.ofExcept (decodeBytes b) := by
+  unfold decodeBytesP decodeBytes
+  cases b with
+  | nil => simp [Out.ofExcept]
+  | cons b0 t =>
+    simp only [List.length_cons, Nat.add_one_ne_zero, if_false]
+    rw [goIdx_lt _ 0 (by simp)]
+    simp only [List.getElem_cons_zero, Out.bind_ok]
+    split
+    · by_cases h4 : t.length + 1 < 4
+      · simp [h4, Out.ofExcept]
+      · simp only [h4, if_false]
+        match t, h4 with
+        | [], h4 => simp at h4
+        | [_], h4 => simp at h4
+        | [_, _], h4 => simp at h4
+        | b1 :: b2 :: b3 :: t', _ =>
+          rw [goIdx_lt _ 1 (by simp), goIdx_lt _ 2 (by simp), goIdx_lt _ 3 (by simp)]
+          simp only [Out.bind_ok, List.getElem_cons_succ, List.getElem_cons_zero, List.drop_succ_cons,
+            List.drop_zero, List.take_succ_cons, List.take_zero, fromLE, List.length_cons]
+          have e : b1.toNat + 256 * (b2.toNat + 256 * b3.toNat)
+              = b1.toNat + 256 * (b2.toNat + 256 * (b3.toNat + 256 * 0)) := by omega
+          rw [e]
+          split
+          · rfl
+          · rename_i hl
+            simp only [goSlice, List.length_cons]
+            have : b1.toNat + 256 * (b2.toNat + 256 * b3.toNat) ≤ t'.length := by omega
+            simp [this, Out.ofExcept]
+    · split
+      · rfl
+      · split
+        · rfl
+        · rename_i hl hs
+          simp only [goSlice, List.length_cons]
+          have : 1 ≤ b0.toNat + 1 ∧ b0.toNat + 1 ≤ t.length + 1 := by omega
+          simp [this, Out.ofExcept]
+
+theorem getBytesP_eq (b : Bytes) : getBytesP b = Out.ofExcept (getBytes b) := by
+  unfold getBytesP getBytes
+  rw [decodeBytesP_eq]
+  cases decodeBytes b with
+  | error e => rfl
+  | ok p =>
+    obtain ⟨n, v⟩ := p
+    simp only [Out.ofExcept, Out.bind_ok]
+    split
+    · rfl
+    · rename_i h
+      have h' : n ≤ b.length := by omega
+      simp [goFrom, h']
+
+/-! #### Truncated / malformed byte strings are errors -/
+
+theorem getBytes_short_form_short (b0 : UInt8) (t : Bytes) (h0 : b0.toNat ≤ 253)
+    (hl : (b0 :: t).length < padded (b0.toNat + 1)) : getBytes (b0 :: t) = .error .eof := by
+  unfold getBytes decodeBytes
+  simp only [firstLong, maxSmall]
+  have h1 : ¬ b0.toNat = 254 := by omega
+  have h2 : ¬ b0.toNat > 253 := by omega
+  simp only [h1, if_false, h2]
+  by_cases hc : (b0 :: t).length < b0.toNat + 1
+  · simp only [hc, if_true]
+  · simp only [hc, if_false, hl, if_true]
+
+theorem getBytes_long_form_short (x1 x2 x3 : UInt8) (t : Bytes)
+    (hl : (UInt8.ofNat 254 :: x1 :: x2 :: x3 :: t).length < padded (fromLE [x1, x2, x3] + 4)) :
+    getBytes (UInt8.ofNat 254 :: x1 :: x2 :: x3 :: t) = .error .eof := by
+  unfold getBytes decodeBytes
+  simp only [firstLong]
+  have h0 : (UInt8.ofNat 254).toNat = 254 := by decide
+  simp only [h0, if_true, List.drop_succ_cons, List.drop_zero, List.take_succ_cons, List.take_zero]
+  have h4 : ¬ (UInt8.ofNat 254 :: x1 :: x2 :: x3 :: t).length < 4 := by simp
+  simp only [h4, if_false]
+  by_cases hc : (UInt8.ofNat 254 :: x1 :: x2 :: x3 :: t).length < fromLE [x1, x2, x3] + 4
+  · simp only [hc, if_true]
+  · simp only [hc, if_false, hl, if_true]
+
+theorem getBytes_long_hdr_short (t : Bytes) (h : (UInt8.ofNat 254 :: t).length < 4) :
+    getBytes (UInt8.ofNat 254 :: t) = .error .eof := by
+  unfold getBytes decodeBytes
+  simp only [firstLong]
+  have h0 : (UInt8.ofNat 254).toNat = 254 := by decide
+  simp only [h0, if_true, h]
+
+/-- Every proper prefix of an encoded byte string is rejected with `eof`. -/
+theorem getBytes_truncated (v : Bytes) (h : v.length < 2 ^ 24) (k : Nat) (hk : k < (putBytes v).length) :
+    getBytes ((putBytes v).take k) = .error .eof := by
+  have hlen := putBytes_length v
+  by_cases hs : v.length ≤ 253
+  · simp only [hs, if_true] at hlen
+    have hp : putBytes v = UInt8.ofNat v.length :: (v ++ zeros (padded (v.length + 1) - (v.length + 1))) := by
+      unfold putBytes maxSmall; simp [hs]
+    cases k with
+    | zero => simp [getBytes, decodeBytes]
+    | succ k =>
+      rw [hp, List.take_succ_cons]
+      have h0 : (UInt8.ofNat v.length).toNat = v.length := u8_ofNat_toNat _ (by omega)
+      apply getBytes_short_form_short
+      · omega
+      · rw [h0]
+        rw [hp] at hk hlen
+        simp only [List.length_cons, List.length_take] at *
+        omega
+  · simp only [hs, if_false] at hlen
+    have hp : putBytes v = UInt8.ofNat 254 :: UInt8.ofNat v.length :: UInt8.ofNat (v.length / 256) ::
+        UInt8.ofNat (v.length / 65536) :: (v ++ zeros (padded (v.length + 4) - (v.length + 4))) := by
+      unfold putBytes maxSmall firstLong; simp [hs]
+    match k with
+    | 0 => simp [getBytes, decodeBytes]
+    | 1 => rw [hp]; exact getBytes_long_hdr_short _ (by simp)
+    | 2 => rw [hp]; exact getBytes_long_hdr_short _ (by simp)
+    | 3 => rw [hp]; exact getBytes_long_hdr_short _ (by simp)
+    | k + 4 =>
+      rw [hp]
+      simp only [List.take_succ_cons]
+      apply getBytes_long_form_short
+      have hfl : fromLE [UInt8.ofNat v.length, UInt8.ofNat (v.length / 256), UInt8.ofNat (v.length / 65536)]
+          = v.length := by
+        simp only [fromLE, UInt8.toNat_ofNat']
+        have : v.length < 16777216 := by simpa using h
+        omega
+      rw [hfl]
+      rw [hp] at hk hlen
+      simp only [List.length_cons, List.length_take] at *
+      omega
+
+/-- First byte 255 is never a valid length prefix. -/
+theorem getBytes_prefix_255 (t : Bytes) :
+    getBytes (UInt8.ofNat 255 :: t) = .error .eof ∨ getBytes (UInt8.ofNat 255 :: t) = .error .invalidLength := by
+  unfold getBytes decodeBytes
+  simp only [firstLong, maxSmall]
+  have h0 : (UInt8.ofNat 255).toNat = 255 := by decide
+  simp only [h0]
+  have : ¬ (255 = 254) := by omega
+  simp only [this, if_false]
+  by_cases hc : (UInt8.ofNat 255 :: t).length < 255 + 1
+  · left; simp only [hc, if_true]
+  · right
+    have hc' : ¬ (t.length + 1 < 256) := by simpa using hc
+    simp [hc']
+
+/-- A successful `getBytes` consumes a multiple of 4 bytes, returns a value shorter than 2^24 that
+re-encodes to exactly the consumed bytes' length. -/
+theorem getBytes_ok_consumed {b v r : Bytes} (h : getBytes b = .ok (v, r)) :
+    consumed b r % 4 = 0 ∧ v.length < 2 ^ 24 ∧ v.length < consumed b r ∧ r.length ≤ b.length := by
+  unfold getBytes at h
+  cases hd : decodeBytes b with
+  | error e => simp [hd] at h
+  | ok p =>
+    obtain ⟨n, v'⟩ := p
+    simp only [hd] at h
+    split at h
+    · cases h
+    · injection h with h; injection h with h1 h2
+      subst h1 h2
+      have hb := decodeBytes_ok_bounds hd
+      unfold consumed
+      simp only [List.length_drop]
+      omega
+
 end TdModel.Bin
